@@ -17,6 +17,8 @@ type SitePlan struct {
 	First int `json:"first,omitempty"`
 	// Nth: delay exactly the N-th hit (1-based; 0 = unused).
 	Nth int `json:"nth,omitempty"`
+	// AfterMs: delay only hits that happen at least this long after Install (0 = unused).
+	AfterMs int `json:"after_ms,omitempty"`
 }
 
 // Plan maps site name to its delay.
@@ -24,6 +26,7 @@ type Plan map[string]SitePlan
 
 type state struct {
 	plan Plan
+	t0   time.Time
 	mu   sync.Mutex
 	hits map[string]int
 	all  bool // count hits on every site (for site discovery)
@@ -51,7 +54,7 @@ func Install(p Plan) {
 		return
 	}
 	_, all := p["*"]
-	cur.Store(&state{plan: p, hits: map[string]int{}, all: all})
+	cur.Store(&state{plan: p, t0: time.Now(), hits: map[string]int{}, all: all})
 }
 
 // Hits returns the number of hits per planned site since Install.
@@ -95,6 +98,9 @@ func P(site string) {
 		return
 	}
 	if sp.First > 0 && n > sp.First {
+		return
+	}
+	if sp.AfterMs > 0 && time.Since(s.t0) < time.Duration(sp.AfterMs)*time.Millisecond {
 		return
 	}
 	time.Sleep(time.Duration(sp.DelayMs) * time.Millisecond)
